@@ -481,3 +481,125 @@ def r_unbound_reads(repo, rep, R, files, consequence):
                               '`%s` is read on a branch where nothing has been assigned to it (it is only set on another branch): UnboundLocalError -- %s' % (nm, consequence))
     rep.ok(R, ', '.join(files[:2]) + ' ..', 'no function reads a local on a feasible path before it is assigned (%d functions; the embedded example fires)' % n)
     return n
+
+
+# ---------------------------------------------------------------------------------------------------------------------
+# text of a tree used as a format template
+# ---------------------------------------------------------------------------------------------------------------------
+TEMPLATE_EXAMPLE = '''
+def _emit(header, body, idx, out):
+    entry = '\\n'.join((header, body))
+    print(entry.format(idx), file=out)
+
+
+def to_text(trees, fmt, out):
+    header = 'ID={}'
+    for i, t in enumerate(trees, 1):
+        _emit(header, fmt(t), i, out)
+'''
+
+
+def computed_templates(tree):
+    """`.format(..)` / `%` applied to text that is not a template written in the source: [(call node, function, why)].
+    A template is a string literal, a name bound only to templates (in the function, at module level, or a parameter of
+    a module-level helper whose every call site hands over a template), a choice between templates, or templates joined
+    by + / 'sep'.join.  Anything else -- the text of a tree, a word, a category -- may contain `{`, `}` or `%`: formatting
+    it raises or rewrites what is printed."""
+    fns = [f for f in ast.walk(tree) if isinstance(f, ast.FunctionDef)]
+    top = {f.name: f for f in tree.body if isinstance(f, ast.FunctionDef)}
+    modconst = {}
+    for s in tree.body:
+        if isinstance(s, (ast.Assign, ast.AnnAssign)) and s.value is not None:
+            for t in (s.targets if isinstance(s, ast.Assign) else [s.target]):
+                if isinstance(t, ast.Name):
+                    modconst.setdefault(t.id, []).append(s.value)
+
+    def fn_of(n):
+        return enclosing_function(n)
+
+    def is_template(e, fn, depth=0):
+        if depth > 6:
+            return False
+        if isinstance(e, ast.Constant):
+            return isinstance(e.value, str)
+        if isinstance(e, ast.IfExp):
+            return is_template(e.body, fn, depth + 1) and is_template(e.orelse, fn, depth + 1)
+        if isinstance(e, ast.BinOp) and isinstance(e.op, ast.Add):
+            return is_template(e.left, fn, depth + 1) and is_template(e.right, fn, depth + 1)
+        if isinstance(e, ast.Call) and isinstance(e.func, ast.Attribute) and e.func.attr == 'join' and isinstance(e.func.value, ast.Constant) \
+                and len(e.args) == 1 and isinstance(e.args[0], (ast.Tuple, ast.List)):
+            return all(is_template(x, fn, depth + 1) for x in e.args[0].elts)
+        if isinstance(e, ast.Subscript) and isinstance(e.value, ast.Name) and e.value.id in modconst:
+            vals = modconst[e.value.id]
+            return all(isinstance(v, ast.Dict) and all(is_template(x, None, depth + 1) for x in v.values) for v in vals)
+        if isinstance(e, ast.Name):
+            f = fn
+            while f is not None:
+                params = [a.arg for a in f.args.posonlyargs + f.args.args + f.args.kwonlyargs]
+                binds = [a for a in ast.walk(f) if isinstance(a, (ast.Assign, ast.AnnAssign)) and a.value is not None and enclosing_function(a) is f
+                         and any(isinstance(t, ast.Name) and t.id == e.id for t in (a.targets if isinstance(a, ast.Assign) else [a.target]))]
+                other = [a for a in ast.walk(f) if enclosing_function(a) is f and (
+                    (isinstance(a, (ast.For, ast.comprehension)) and any(isinstance(x, ast.Name) and x.id == e.id for x in ast.walk(a.target)))
+                    or (isinstance(a, ast.AugAssign) and isinstance(a.target, ast.Name) and a.target.id == e.id)
+                    or (isinstance(a, ast.Assign) and any(isinstance(t, (ast.Tuple, ast.List)) and any(isinstance(x, ast.Name) and x.id == e.id for x in ast.walk(t)) for t in a.targets)))]
+                if other:
+                    return False
+                if binds:
+                    return all(is_template(b.value, f, depth + 1) for b in binds)
+                if e.id in params:
+                    if f.name in top and top[f.name] is f:
+                        sites = [c for c in ast.walk(tree) if isinstance(c, ast.Call) and isinstance(c.func, ast.Name) and c.func.id == f.name]
+                        if not sites:
+                            return True          # handed in by the caller: not text this module computes
+                        i = [a.arg for a in f.args.posonlyargs + f.args.args].index(e.id) if e.id in [a.arg for a in f.args.posonlyargs + f.args.args] else None
+                        for c in sites:
+                            arg = None
+                            for k in c.keywords:
+                                if k.arg == e.id:
+                                    arg = k.value
+                            if arg is None and i is not None and i < len(c.args):
+                                arg = c.args[i]
+                            if arg is None:
+                                dflt = dict(zip(reversed([a.arg for a in f.args.posonlyargs + f.args.args]), reversed(f.args.defaults)))
+                                arg = dflt.get(e.id)
+                            if arg is None or not is_template(arg, fn_of(c), depth + 1):
+                                return False
+                        return True
+                    return True
+                f = enclosing_function(f)
+            if e.id in modconst:
+                return all(is_template(v, None, depth + 1) for v in modconst[e.id])
+            return True       # imported / unknown name: not computed here
+        if isinstance(e, ast.Attribute):
+            return True       # a constant of another module / of a class
+        return False
+
+    out = []
+    for n in ast.walk(tree):
+        fn = fn_of(n) if not isinstance(n, ast.Module) else None
+        if isinstance(n, ast.Call) and isinstance(n.func, ast.Attribute) and n.func.attr == 'format' and (n.args or n.keywords):
+            if not is_template(n.func.value, fn):
+                out.append((n, fn, 'str.format is applied to %s' % src(n.func.value)[:60]))
+        if isinstance(n, ast.BinOp) and isinstance(n.op, ast.Mod) and (isinstance(n.left, ast.JoinedStr) or (
+                isinstance(n.left, ast.Call) and isinstance(n.left.func, ast.Attribute) and n.left.func.attr == 'join')):
+            if not is_template(n.left, fn):
+                out.append((n, fn, '%% is applied to %s' % src(n.left)[:60]))
+    return out
+
+
+def r_templates_constant(repo, rep, R, files, consequence):
+    from .core import attach_parents
+    ex = attach_parents(ast.parse(TEMPLATE_EXAMPLE))
+    if len(computed_templates(ex)) != 1:
+        raise AnalysisError('the computed-template rule does not match its positive example')
+    n = 0
+    for rel in files:
+        mod = repo.module(rel)
+        hits = computed_templates(mod.tree)
+        sites = [c for c in ast.walk(mod.tree) if isinstance(c, ast.Call) and isinstance(c.func, ast.Attribute) and c.func.attr == 'format']
+        n += len(sites)
+        for node, fn, why in hits:
+            rep.check(False, R, '%s:%s %s' % (rel, node.lineno, fn.name if fn is not None else '<module>'), '%s:%s:computed-template' % (rel, fn.name if fn is not None else '<module>'), '',
+                      '%s, which is not a template written in the source: %s' % (why, consequence))
+    rep.check(True, R, files[0], 'templates:constant', 'every str.format in %d printer modules is applied to a template written in the source (%d sites)' % (len(files), n), '')
+    return n
